@@ -139,6 +139,7 @@ def summarise_e1(pid, cfg, tps, results, wall, extra_assumptions=()):
         "vacuity_reachable": len([o for o in obls if o["status"] == "reachable"]),
         "perturbation_discriminates": len([o for o in obls if o["status"] == "discriminates"]),
         "models_validated": len([o for o in obls if o["status"] == "validated"]),
+        "unsupported_artefacts_concrete_fallback": len([o for o in obls if o["kind"].startswith("fallback:")]),
         "model_validation_samples": sum((o.get("detail") or {}).get("tried", 0) for o in obls if o["kind"].startswith("validate:")),
         "sql_refused_templates": refused,
         "solver_seconds": round(solver_s, 2),
